@@ -53,6 +53,11 @@ RtCfgs(b) ==
     {[f |-> FLeaf("has_a", 300 + 4 * b + 1), amb |-> <<[k |-> "a", v |-> 21]>>, clock |-> 9],
      [f |-> FLeaf("false", 300 + 4 * b + 1), amb |-> <<>>, clock |-> None]}
 
+WForms == {"owned", "ref", "erased"}
+WfOf(f) == IF f.op = "and" THEN "erased" ELSE IF f.op = "or" THEN "ref"
+           ELSE IF f.p = "has_a" THEN "erased" ELSE IF f.p = "false" THEN "ref" ELSE "owned"
+WfOfKind(k) == IF k = "drop" THEN "ref" ELSE IF k = "pass" THEN "erased" ELSE "owned"
+
 RECURSIVE EWidth(_)
 EWidth(d) == IF d = 0 THEN 1 ELSE 2 * EWidth(d - 1) + 1
 
@@ -66,8 +71,11 @@ ET(d, b) ==
          IN sub \cup {[op |-> "none"]}
                 \cup {[op |-> o, t |-> x] : o \in FWrap, x \in sub}
                 \cup {[op |-> "and", l |-> x, r |-> y] : x \in sub, y \in subR}
-                \cup {[op |-> "wrap", f |-> f, t |-> x] : f \in WrapFilters(b), x \in subW}
-                \cup {[op |-> "wrapfn", kind |-> k, t |-> x] : k \in {"drop", "pass", "prepend"}, x \in sub}
+                \* (the form of the wrapping follows from the filter / kind: no growth of the set;
+                \*  scenario W crosses the forms)
+                \cup {[op |-> "wrap", f |-> f, wf |-> WfOf(f), t |-> x] : f \in WrapFilters(b), x \in subW}
+                \cup {[op |-> "wrapfn", kind |-> k, wf |-> WfOfKind(k), t |-> x] :
+                         k \in {"drop", "pass", "prepend"}, x \in sub}
                 \cup {[op |-> "rt", f |-> c.f, amb |-> c.amb, clock |-> c.clock, id |-> b + 1, t |-> x] :
                          c \in RtCfgs(b), x \in subW}
 
@@ -78,8 +86,8 @@ ET3(b) ==
     IN {[op |-> "and", l |-> x, r |-> y] : x \in two, y \in one}
        \cup {[op |-> "and", l |-> y, r |-> x] : x \in ET(2, b + EWidth(1)), y \in ET(1, b)}
        \cup {[op |-> o, t |-> x] : o \in {"erased", "opt", "arc"}, x \in two}
-       \cup {[op |-> "wrap", f |-> f, t |-> x] : f \in WrapFilters(b), x \in ET(2, b + 1)}
-       \cup {[op |-> "wrapfn", kind |-> "prepend", t |-> x] : x \in two}
+       \cup {[op |-> "wrap", f |-> f, wf |-> WfOf(f), t |-> x] : f \in WrapFilters(b), x \in ET(2, b + 1)}
+       \cup {[op |-> "wrapfn", kind |-> "prepend", wf |-> "erased", t |-> x] : x \in two}
        \cup {[op |-> "rt", f |-> c.f, amb |-> c.amb, clock |-> c.clock, id |-> b + 1, t |-> x] :
                 c \in RtCfgs(b), x \in ET(2, b + 1)}
 
@@ -123,8 +131,8 @@ ScenSet(s) ==
                     s.entry) :
                 o \in {<<>>, <<KV("a", 1)>>}, x \in {NoExtent, Point(5)}, am \in {<<>>, <<KV("a", 11)>>},
                 cl \in Clocks,
-                e \in {ELeaf(2), [op |-> "and", l |-> ELeaf(2), r |-> [op |-> "wrapfn", kind |-> "prepend", t |-> ELeaf(3)]],
-                       [op |-> "wrap", f |-> FLeaf("a_is_11", 205), t |-> ELeaf(2)]}}
+                e \in {ELeaf(2), [op |-> "and", l |-> ELeaf(2), r |-> [op |-> "wrapfn", kind |-> "prepend", wf |-> "ref", t |-> ELeaf(3)]],
+                       [op |-> "wrap", f |-> FLeaf("a_is_11", 205), wf |-> "erased", t |-> ELeaf(2)]}}
       \* G: span guards: the clock's two readings forward / equal / backwards / no clock, filters
       \*    that do not look at the extent, a destination behind a wrapping that does
       [] s.kind = "G" ->
@@ -133,14 +141,27 @@ ScenSet(s) ==
                 am \in {<<>>, <<KV("a", 11)>>}, cl \in Clocks, c2 \in {3, 7, 9},
                 e \in {ELeaf(1),
                        [op |-> "and", l |-> ELeaf(1),
-                        r |-> [op |-> "wrap", f |-> FLeaf(s.wp, 205), t |-> ELeaf(2)]]}}
+                        r |-> [op |-> "wrap", f |-> FLeaf(s.wp, 205), wf |-> "ref", t |-> ELeaf(2)]]}}
+      \* W: the forms: every wrapping form x every wrapping; fn-pointer leaves; filter::always();
+      \*    in place of the corresponding closure / by-value forms
+      [] s.kind = "W" ->
+            {Config(o, Point(5), am, MC_ClockT, f, Absent, e, s.entry) :
+                o \in {<<>>, <<KV("a", 1)>>}, am \in {<<>>, <<KV("a", 11)>>},
+                f \in {FLeaf("true", 1), [op |-> "fnleaf", p |-> "has_a", id |-> 1], [op |-> "always"],
+                       [op |-> "and", l |-> [op |-> "always"], r |-> [op |-> "fnleaf", p |-> "a_is_11", id |-> 2]],
+                       [op |-> "or", l |-> FLeaf("false", 1), r |-> [op |-> "erased", t |-> [op |-> "always"]]]},
+                e \in {[op |-> "wrap", f |-> wfl, wf |-> w, t |-> ELeaf(2)] : wfl \in WrapFilters(0), w \in WForms}
+                      \cup {[op |-> "wrapfn", kind |-> k, wf |-> w, t |-> ELeaf(2)] :
+                               k \in {"drop", "pass", "prepend"}, w \in WForms}
+                      \cup {[op |-> "fnleaf", id |-> 1],
+                            [op |-> "and", l |-> ELeaf(1), r |-> [op |-> "erased", t |-> [op |-> "fnleaf", id |-> 2]]]}}
       [] s.kind = "D" ->
             {Config(s.own, Point(5), s.amb, MC_ClockT, FLeaf(s.p, 1), Absent, e, s.entry) :
                 e \in (IF s.d = 3 THEN ET3(0) ELSE ET(s.d, 0))}
 
 MacroEntries == {"macro", "macro_evt", "macro_lvl", "evt_macro"}
 AllEntries == (Pipeline \ SpanGuards) \cup {"direct"}
-NewEntries == {"macro_lvl", "evt_macro", "span_evt", "metric_evt"}
+NewEntries == {"macro_lvl", "evt_macro", "span_evt", "metric_evt", "rt_with"}
 
 ScensG ==
     {[kind |-> "G", p |-> p, wp |-> wp, entry |-> en] :
@@ -160,6 +181,8 @@ ScensR(Entries) ==
     {[kind |-> "R", p |-> p, amb |-> am, clock |-> cl, entry |-> en] :
         p \in PredsNested, am \in {<<>>, <<KV("a", 21)>>, <<KV("b", 21)>>}, cl \in {None, 9}, en \in Entries}
 
+ScensW(Entries) == {[kind |-> "W", entry |-> en] : en \in Entries}
+
 ScensD(d, Entries) ==
     \* (new_span! takes its properties at compile time: no own properties there)
     {sc \in {[kind |-> "D", d |-> d, own |-> o, amb |-> am, p |-> p, entry |-> en] :
@@ -176,6 +199,7 @@ ScensFor(w) ==
             ScensE(PredsAll, {"rt", "macro", "macro_evt", "direct"})
             \cup ScensE(PredsFew, {"core", "rt_as_emitter"} \cup NewEntries)
             \cup ScensG
+            \cup ScensW({"rt", "direct", "macro"})
             \cup ScensF({"true", "false"}, 2, {<<>>}, {"rt", "macro"})
             \cup ScensF({"true", "false", "has_b", "ext_clock"}, 1, {<<>>, <<KV("b", 11)>>}, {"core", "macro_evt"})
             \cup ScensD(2, {"rt", "direct", "macro"})
@@ -184,6 +208,7 @@ ScensFor(w) ==
       [] w = "thorough" ->
             ScensE(PredsAll \cup {"ext_empty"}, AllEntries)
             \cup ScensG
+            \cup ScensW(AllEntries)
             \cup ScensD(1, SpanGuards)
             \cup ScensF({"true", "false", "has_b"}, 2, {<<>>, <<KV("b", 11)>>}, {"rt", "macro", "macro_evt"})
             \cup ScensF(PredsAll, 1, {<<>>, <<KV("b", 11)>>}, {"core", "rt_as_emitter", "macro"})
